@@ -6,8 +6,10 @@ import (
 	"encoding/json"
 	"fmt"
 	"math"
+	"math/big"
 	"sort"
 	"strings"
+	"time"
 
 	"github.com/robertkrimen/otto"
 
@@ -31,6 +33,9 @@ type Input struct {
 	Repl   *refjson.Node `json:"repl,omitempty"`
 	Space  *refjson.Node `json:"space,omitempty"`
 	Plain  bool          `json:"plain,omitempty"` // value drawn from the JSON-representable subset
+	PE     bool          `json:"pe,omitempty"`    // during the call Object.prototype has an accessor property named ""
+	// go: index into goCases (bridged Go values: Marshalers, cycles)
+	Go int `json:"go,omitempty"`
 	// parsearg
 	Arg int `json:"arg,omitempty"`
 }
@@ -104,7 +109,12 @@ func generate(r *gen.Rand, i int) Input {
 			in.Repl = genReplArr(r, in.V)
 		}
 		in.Space = genSpace(r)
+		// (not with a property list: a list naming "" would legitimately [[Get]] the inherited accessor)
+		in.PE = in.Repl == nil && r.Chance(1, 30)
 		return in
+	}
+	if r.Chance(1, 3) {
+		return Input{Op: "go", Go: r.Intn(len(goCases))}
 	}
 	return Input{Op: "parsearg", Arg: r.Intn(len(parseArgs))}
 }
@@ -147,7 +157,8 @@ var __replacers = {
   log:     function(k,v){ __plog(k,v,this); return v },
   filter:  function(k,v){ __plog(k,v,this); if (k==="a"||k==="1") return undefined; if (typeof v==="number" && v<0) return undefined; return v },
   replace: function(k,v){ __plog(k,v,this); if (typeof v==="number") return "num"; if (v===null) return [true,1.5]; if (typeof v==="boolean") return "B"; return v },
-  thisget: function(k,v){ __plog(k,v,this); return this[k] }
+  thisget: function(k,v){ __plog(k,v,this); return this[k] },
+  mutate:  function(k,v){ __plog(k,v,this); if (Object.prototype.toString.call(this)==="[object Array]") { if (k==="0") delete this[1]; } else if (k==="b"||k==="0"||k==="x") { delete this.a; delete this.c; this.zz=1 } return v }
 };
 `
 
@@ -266,6 +277,23 @@ func modelReplacer(name string, log *[]string, sh func(*refjson.Val) string) fun
 		}
 	case "thisget":
 		return func(h *refjson.Val, k []uint16, v *refjson.Val) *refjson.Val { rec(h, k, v); return h.Get(k) }
+	case "mutate":
+		// deletes and adds members of the holder while it is being walked: the key list K of
+		// 15.12.3 JO step 5/6 is fixed before the first member is serialised
+		return func(h *refjson.Val, k []uint16, v *refjson.Val) *refjson.Val {
+			rec(h, k, v)
+			switch {
+			case h.Kind == refjson.Array:
+				if refjson.EqUnits(k, refjson.U("0")) {
+					h.Delete(refjson.U("1"))
+				}
+			case h.Kind == refjson.Object && (refjson.EqUnits(k, refjson.U("b")) || refjson.EqUnits(k, refjson.U("0")) || refjson.EqUnits(k, refjson.U("x"))):
+				h.Delete(refjson.U("a"))
+				h.Delete(refjson.U("c"))
+				h.Define(refjson.U("zz"), refjson.NumV(1))
+			}
+			return v
+		}
 	}
 	return nil
 }
@@ -359,6 +387,8 @@ func checkOne(c *run.Ctx, in Input) {
 		cr.stringify()
 	case "parsearg":
 		cr.parsearg()
+	case "go":
+		cr.goCase()
 	default:
 		panic("c11: unknown op " + in.Op)
 	}
@@ -533,6 +563,11 @@ func (cr *caseRun) stringify() {
 		c.Inconclusive("could not build the described value in otto: " + out.Err.Error())
 		return
 	}
+	if in.PE {
+		// 15.12.3 step 10 creates the wrapper's member with [[DefineOwnProperty]]: nothing inherited interferes
+		call = "(function(){ Object.defineProperty(Object.prototype,'',{get:function(){return 42},set:function(){},configurable:true}); try { return " + call + " } finally { delete Object.prototype[''] } })()"
+		c.Feature("stringify:prototype-has-empty-name-accessor")
+	}
 	events = nil
 	out, ok := cr.js("JSON.stringify", call)
 	if !ok {
@@ -631,11 +666,6 @@ func (cr *caseRun) marshal(res refjson.Result) {
 	if res.Kind == refjson.RUndefined {
 		return // undefined / function: not JSON-representable
 	}
-	if in.V.K == "num" {
-		if f := float64(in.V.N); f != f || math.IsInf(f, 0) {
-			return
-		}
-	}
 	do := func(site string, f func() ([]byte, error)) {
 		var b []byte
 		var e error
@@ -676,4 +706,94 @@ func (cr *caseRun) marshal(res refjson.Result) {
 	if vm != nil && val.IsObject() {
 		do("Object.MarshalJSON", val.Object().MarshalJSON)
 	}
+}
+
+// ------------------------------------------------------------ bridged Go values
+
+type goLeaf struct{ V int }
+type goNode struct {
+	Next *goNode
+	V    int
+}
+type goTwo struct{ A, B *goLeaf }
+type goPtrM struct{ X int }
+
+func (p *goPtrM) MarshalJSON() ([]byte, error) { return []byte(fmt.Sprintf(`"P%d"`, p.X)), nil }
+
+type goOuter struct {
+	In goPtrM
+	N  *big.Int
+}
+
+// goCases: JSON.stringify over values bridged from Go. A json.Marshaler member is serialised as
+// its MarshalJSON text, but it is a member like any other: the replacer function is called for it
+// (15.12.3 Str step 3) and a cycle is a TypeError (JO/JA step 1) whatever the objects are made of.
+// want is a JSON text (compared as the value it denotes), "undefined" or "throw:<Class>".
+var goCases = []struct {
+	name string
+	set  func(vm *otto.Otto)
+	call string
+	want string
+}{
+	{"marshaler-member", func(vm *otto.Otto) { vm.Set("t", time.Unix(0, 0).UTC()) }, `JSON.stringify({a:t,b:1})`, `{"a":"1970-01-01T00:00:00Z","b":1}`},
+	{"replacer-drops-marshaler-member", func(vm *otto.Otto) { vm.Set("t", time.Unix(0, 0).UTC()) }, `JSON.stringify({secret:t,b:1}, function(k,v){ return k==="secret" ? undefined : v })`, `{"b":1}`},
+	{"replacer-replaces-marshaler-member", func(vm *otto.Otto) { vm.Set("t", time.Unix(0, 0).UTC()) }, `JSON.stringify({secret:t,b:1}, function(k,v){ return k==="secret" ? "X" : v })`, `{"secret":"X","b":1}`},
+	{"replacer-called-for-marshaler-member", func(vm *otto.Otto) { vm.Set("t", time.Unix(0, 0).UTC()) }, `(function(){ var ks=[]; JSON.stringify({s:t,b:[t]}, function(k,v){ ks.push(k); return v }); return JSON.stringify(ks) })()`, `["","s","b","0"]`},
+	{"replacer-drops-marshaler-root", func(vm *otto.Otto) { vm.Set("t", time.Unix(0, 0).UTC()) }, `String(JSON.stringify(t, function(k,v){ return undefined }))`, `undefined`},
+	{"pointer-receiver-root", func(vm *otto.Otto) { vm.Set("big", big.NewInt(5)) }, `JSON.stringify(big)`, `5`},
+	{"pointer-receiver-member", func(vm *otto.Otto) { vm.Set("big", big.NewInt(5)) }, `JSON.stringify({n:big,a:[big]})`, `{"n":5,"a":[5]}`},
+	{"pointer-receiver-field", func(vm *otto.Otto) { vm.Set("o", &goOuter{In: goPtrM{7}, N: big.NewInt(12)}) }, `JSON.stringify(o)`, `{"In":"P7","N":12}`},
+	{"go-cycle-struct", func(vm *otto.Otto) { n := &goNode{V: 1}; n.Next = n; vm.Set("ring", n) }, `JSON.stringify(ring)`, `throw:TypeError`},
+	{"go-cycle-struct-2", func(vm *otto.Otto) {
+		a, b := &goNode{V: 1}, &goNode{V: 2}
+		a.Next, b.Next = b, a
+		vm.Set("ring", a)
+	}, `JSON.stringify({r:ring})`, `throw:TypeError`},
+	{"go-cycle-map", func(vm *otto.Otto) { m := map[string]interface{}{"v": 1}; m["self"] = m; vm.Set("m", m) }, `JSON.stringify(m)`, `throw:TypeError`},
+	{"go-cycle-slice", func(vm *otto.Otto) { s := make([]interface{}, 2); s[0] = 1; s[1] = s; vm.Set("s", s) }, `JSON.stringify(s)`, `throw:TypeError`},
+	{"go-shared-not-cyclic", func(vm *otto.Otto) { l := &goLeaf{3}; vm.Set("two", &goTwo{l, l}) }, `JSON.stringify(two)`, `{"A":{"V":3},"B":{"V":3}}`},
+	{"go-marshal-values", func(vm *otto.Otto) {
+		vm.Set("goMarshal", func(call otto.FunctionCall) otto.Value {
+			b, err := json.Marshal(map[string]otto.Value{"x": call.Argument(0), "y": call.Argument(1)})
+			if err != nil {
+				panic(call.Otto.MakeTypeError(err.Error()))
+			}
+			v, _ := otto.ToValue(string(b))
+			return v
+		})
+	}, `goMarshal(0/0, [1/0, -1/0, new Number(NaN)])`, `{"x":null,"y":[null,null,null]}`},
+}
+
+func (cr *caseRun) goCase() {
+	c, in := cr.c, cr.in
+	gc := goCases[in.Go]
+	v := otto.New()
+	gc.set(v)
+	out := ox.Run(v, gc.call)
+	c.Eval(1)
+	if out.Panic != nil {
+		c.Fail("panic", "JSON.stringify:go:"+gc.name, in, "no Go panic", fmt.Sprint(out.Panic), out.Stack)
+		return
+	}
+	var actual string
+	switch {
+	case out.Err != nil:
+		actual = "throw:" + ox.ErrClass(out.Err)
+	case out.Val.IsString():
+		actual, _ = out.Val.ToString()
+	default:
+		actual = "not a string: " + out.String()
+	}
+	ok := actual == gc.want
+	if !ok && !strings.HasPrefix(gc.want, "throw:") && gc.want != "undefined" {
+		w, werr := refjson.Parse(refjson.U2(gc.want))
+		g, gerr := refjson.Parse(refjson.U2(actual))
+		ok = werr == nil && gerr == nil && refjson.Dump(w, sortedOpts) == refjson.Dump(g, sortedOpts)
+	}
+	if !ok {
+		c.Fail("mismatch", "JSON.stringify:go:"+gc.name, in, gc.want, actual, gc.call)
+	}
+	c.Feature("go:" + gc.name)
+	c.Nontrivial("go|" + gc.name)
+	c.Sample(in)
 }
